@@ -16,14 +16,18 @@ calls it) is then NOT emitted, a `-- SHAPE-ERROR` comment is, and the tie theore
 compiling — the failure is loud and local to the properties guarded by that function.
 
 Types:  'int' ↦ Int,  'dec' ↦ Rat,  'bool' ↦ Bool (Prop in conditions),  'str' ↦ String,
-        ('tuple', [τ…]) ↦ τ × …,  ('dict', τ) ↦ List (String × τ),  ('table', [cols]) ↦ risk-parameter frame.
+        'tok' ↦ String (a TokenInfo is identified with its `.name`: its __eq__/__hash__ use only the name),
+        'xdec' ↦ Py.XDec (a Decimal that may be Decimal("inf"); only built and returned, never operated on),
+        'frame' ↦ String → String → M Rat (a pandas frame read as `frame.loc[row].column`; row/column misses raise inside),
+        ('tuple', [τ…]) ↦ τ × …,  ('dict', τ) ↦ List (String × τ) in insertion order (keys are 'tok').
 """
-import ast, os, sys
+import ast, os, re, sys
 
 sys.path.insert(0, os.path.dirname(os.path.abspath(__file__)))
 from gen_common import REPO, OUT, ShapeError
 
-LEAN_TY = {"int": "Int", "dec": "Rat", "bool": "Bool", "str": "String"}
+LEAN_TY = {"int": "Int", "dec": "Rat", "dec0": "Rat", "bool": "Bool", "str": "String", "tok": "String", "xdec": "Py.XDec",
+           "frame": "String → String → M Rat"}
 
 
 def lean_ty(t):
@@ -31,8 +35,6 @@ def lean_ty(t):
         return " × ".join(("(" + lean_ty(x) + ")") if isinstance(x, tuple) else lean_ty(x) for x in t[1])
     if isinstance(t, tuple) and t[0] == "dict":
         return f"List (String × {lean_ty(t[1])})"
-    if isinstance(t, tuple) and t[0] == "table":
-        return "List (String × (String → Option Rat))"
     return LEAN_TY[t]
 
 
@@ -84,8 +86,8 @@ def dec_literal(s, node):
 
 
 class Sig:
-    def __init__(self, name, lean_name, params, ret=None, uses_cx=False):
-        self.name, self.lean_name, self.params, self.ret, self.uses_cx = name, lean_name, params, ret, uses_cx
+    def __init__(self, name, lean_name, params, ret=None, uses_cx=False, uses_pow=False):
+        self.name, self.lean_name, self.params, self.ret, self.uses_cx, self.uses_pow = name, lean_name, params, ret, uses_cx, uses_pow
 
 
 class Fn:
@@ -97,6 +99,7 @@ class Fn:
         self.lines = []
         self.ntmp = 0
         self.uses_cx = False
+        self.uses_pow = False
         self.ret = None
         # `let mut` only for variables that are really re-assigned: found by a first pass (see translate())
         self.mut = None
@@ -118,6 +121,9 @@ class Fn:
         if ty == "dec":
             return term
         if ty == "int":
+            m = re.fullmatch(r"\((-?\d+) : Int\)", term)
+            if m:
+                return f"({m.group(1)} : Rat)"      # an int literal: the same number as a Rat literal
             return f"(({term} : Int) : Rat)"
         fail(node, f"a {ty} where a Decimal or int is needed")
 
@@ -162,6 +168,18 @@ class Fn:
             # ClassName.CONST
             if isinstance(n.value, ast.Name) and n.value.id == self.unit.cls and n.attr in self.consts:
                 return self.consts[n.attr]
+            # frame.loc[row].column
+            v = n.value
+            if isinstance(v, ast.Subscript) and isinstance(v.value, ast.Attribute) and v.value.attr == "loc" \
+                    and isinstance(v.value.value, ast.Name) and env.get(v.value.value.id) == "frame":
+                k, tk = self.expr(v.slice, env, ind)
+                if tk not in ("str", "tok"):
+                    fail(n, f".loc[] with a {tk} row key")
+                return self.effect(ind, f'{v.value.value.id} {k} "{n.attr}"', "dec")
+            if n.attr == "name":
+                a, ta = self.expr(n.value, env, ind)
+                if ta == "tok":
+                    return a, "str"       # a TokenInfo is represented by its name
             fail(n, f"attribute access .{n.attr}")
         if isinstance(n, ast.UnaryOp):
             if isinstance(n.op, ast.Not):
@@ -208,6 +226,9 @@ class Fn:
             lb = self.lines[mark:]; del self.lines[mark:]
             if ta == "prop": a, ta = self.as_bool(a, ta, n), "bool"
             if tb == "prop": b, tb = self.as_bool(b, tb, n), "bool"
+            if {ta, tb} == {"dec", "xdec"}:
+                if ta == "dec": a, ta = f"(Py.XDec.fin {a})", "xdec"
+                if tb == "dec": b, tb = f"(Py.XDec.fin {b})", "xdec"
             if ta != tb:
                 fail(n, f"conditional expression with branches of different types ({ta}, {tb})")
             if not la and not lb:
@@ -243,15 +264,23 @@ class Fn:
 
     def compare(self, n, op, a, ta, b, tb):
         sym = {ast.Lt: "<", ast.LtE: "≤", ast.Gt: ">", ast.GtE: "≥", ast.Eq: "=", ast.NotEq: "≠"}.get(type(op))
+        if isinstance(op, (ast.In, ast.NotIn)):
+            # `k in d` / `k in d.keys()` : b was compiled from the right operand
+            if isinstance(tb, tuple) and tb[0] in ("dict", "keys") and ta in ("tok", "str"):
+                r = f"(Py.hasKey {b} {a} = true)"
+                return r if isinstance(op, ast.In) else f"(¬ {r})"
+            fail(n, f"membership test of a {ta} in a {tb}")
         if sym is None:
             fail(n, f"comparison {type(op).__name__}")
         if ta == "prop": a, ta = self.as_bool(a, ta, n), "bool"
         if tb == "prop": b, tb = self.as_bool(b, tb, n), "bool"
+        if ta == "dec0": ta = "dec"       # comparisons are exact: int 0 and Decimal 0 compare alike
+        if tb == "dec0": tb = "dec"
         if ta == tb and ta in ("int", "dec"):
             return f"({a} {sym} {b})"
         if {ta, tb} == {"int", "dec"}:  # exact comparison, no rounding
             return f"({self.as_dec(a, ta, n)} {sym} {self.as_dec(b, tb, n)})"
-        if ta == tb and ta in ("str", "bool") and sym in ("=", "≠"):
+        if ta == tb and ta in ("str", "bool", "tok") and sym in ("=", "≠"):
             return f"({a} {sym} {b})"
         fail(n, f"comparison {sym} between {ta} and {tb}")
 
@@ -260,6 +289,11 @@ class Fn:
         a, ta = self.expr(n.left, env, ind)
         b, tb = self.expr(n.right, env, ind)
         cb = const_value(n.right)
+        if cb is None:
+            rn = n.right
+            nm = rn.id if isinstance(rn, ast.Name) else (rn.attr if isinstance(rn, ast.Attribute) else None)
+            if nm in self.consts and isinstance(self.unit.const_values.get(nm), int):
+                cb = self.unit.const_values[nm]
         if ta == "int" and tb == "int":
             if isinstance(op, ast.Add): return f"({a} + {b})", "int"
             if isinstance(op, ast.Sub): return f"({a} - {b})", "int"
@@ -283,6 +317,17 @@ class Fn:
             if isinstance(op, ast.BitOr): return f"(Py.bor {a} {b})", "int"
             if isinstance(op, ast.Div): fail(n, "int / int is a float (outside the subset)")
             fail(n, f"int operator {type(op).__name__}")
+        # sum(...) is the int 0 when empty: with a Decimal operand it then acts exactly as Decimal(0); with an int or
+        # another sum the empty case would be int arithmetic (no rounding) — not modelled
+        if "dec0" in (ta, tb):
+            if {ta, tb} != {"dec0", "dec"}:
+                fail(n, f"arithmetic between the result of sum() and a {tb if ta == 'dec0' else ta}")
+            ta = tb = "dec"
+        if ta == "dec" and tb == "int" and isinstance(op, ast.Pow):
+            if cb is None or cb <= 0:
+                fail(n, "Decimal ** <non-constant or non-positive exponent>")
+            self.uses_pow = True
+            return f"(dpow {a} {cb})", "dec"
         if "dec" in (ta, tb) and ta in ("int", "dec") and tb in ("int", "dec"):
             a, b = self.as_dec(a, ta, n), self.as_dec(b, tb, n)
             if isinstance(op, ast.Add): return f"({self.cx()}.add {a} {b})", "dec"
@@ -325,10 +370,12 @@ class Fn:
             if fname == "Decimal":
                 if len(args) != 1: fail(n, "Decimal() with other than one argument")
                 if isinstance(args[0], ast.Constant) and isinstance(args[0].value, str):
+                    if args[0].value.strip().lower() in ("inf", "infinity", "+inf", "+infinity"):
+                        return "Py.XDec.inf", "xdec"
                     return dec_literal(args[0].value, n)[0], "dec"
                 a, ta = self.expr(args[0], env, ind)
-                if ta == "int": return f"(({a} : Int) : Rat)", "dec"       # exact, no rounding
-                if ta == "dec": return a, "dec"                              # Decimal(Decimal) is the identity
+                if ta == "int": return self.as_dec(a, ta, n), "dec"         # exact, no rounding
+                if ta in ("dec", "dec0"): return a, "dec"                    # Decimal(Decimal) is the identity; Decimal(0) of an empty sum
                 fail(n, f"Decimal() of a {ta}")
             if fname == "int":
                 if len(args) != 1: fail(n, "int() with other than one argument")
@@ -355,6 +402,10 @@ class Fn:
             fail(n, f"call of '{fname}' (not a translated function or supported builtin)")
         # ---- method calls on locals
         if isinstance(f, ast.Attribute) and fname is None:
+            if f.attr == "keys" and not n.args:
+                d, td = self.expr(f.value, env, ind)
+                if isinstance(td, tuple) and td[0] == "dict":
+                    return d, ("keys", td[1])
             fail(n, f"method call .{f.attr}()")
         if fname not in self.unit.sigs:
             fail(n, f"call of '{fname}', which is not translated")
@@ -371,6 +422,9 @@ class Fn:
                 fail(n, f"argument '{pn}' of {fname}: a {ta} is passed where the translated signature has {pt}")
             terms.append(a)
         cxs = (self.cx() + " ") if sig.uses_cx else ""
+        if sig.uses_pow:
+            self.uses_pow = True
+            cxs += "dpow "
         return self.effect(ind, f"{sig.lean_name} {cxs}" + " ".join(terms), sig.ret)
 
     def sum_call(self, n, env, ind):
@@ -413,7 +467,7 @@ class Fn:
             if not (isinstance(target, ast.Tuple) and len(target.elts) == 2 and all(isinstance(e, ast.Name) for e in target.elts)):
                 fail(n, "for-target over .items() must be `k, v`")
             k, v = target.elts[0].id, target.elts[1].id
-            env2[k], env2[v] = "str", td[1]
+            env2[k], env2[v] = "tok", td[1]
             self.iter_term = d
             return f"({k}, {v})", env2
         if not isinstance(target, ast.Name):
@@ -422,7 +476,7 @@ class Fn:
             env2[target.id] = td[1]
             self.iter_term = f"{d}.map (·.2)"
         else:
-            env2[target.id] = "str"
+            env2[target.id] = "tok"
             self.iter_term = f"{d}.map (·.1)"
         return target.id, env2
 
@@ -607,8 +661,6 @@ class Fn:
         name = target.id
         a, ta = self.expr(value, env, ind)
         if ta == "prop": a, ta = self.as_bool(a, ta, s), "bool"
-        if ta == "dec0":
-            fail(s, "storing the result of sum() without Decimal(...) (int 0 when empty, Decimal otherwise)")
         self.check_ann(ann, ta, s)
         # peephole: `let t ← act; x := t`  ⇒  `x ← act`
         direct = None
@@ -642,7 +694,7 @@ class Fn:
         env_out, term = self.block(self.fdef.body, env, 1)
         if not term:
             fail(self.fdef, "control can reach the end of the function (returns None)")
-        return self.lines, self.ret, self.uses_cx
+        return self.lines, self.ret, self.uses_cx, self.uses_pow
 
 
 ANN = {"int": "int", "Decimal": "dec", "bool": "bool", "str": "str"}
@@ -719,9 +771,9 @@ class Unit:
                     if getattr(d, "id", None) != "staticmethod":
                         fail(fdef, "decorator other than @staticmethod")
                 fn = Fn(self, fdef, sig.params, consts or dict(EXTERNAL_CONSTS))
-                lines, ret, uses_cx = fn.translate()
-                sig.ret, sig.uses_cx = ret, uses_cx
-                binders = ("(cx : NumCtx) " if uses_cx else "") + " ".join(f"({p} : {lean_ty(t)})" for p, t in sig.params)
+                lines, ret, uses_cx, uses_pow = fn.translate()
+                sig.ret, sig.uses_cx, sig.uses_pow = ret, uses_cx, uses_pow
+                binders = ("(cx : NumCtx) " if uses_cx else "") + ("(dpow : Rat → Nat → Rat) " if uses_pow else "") + " ".join(f"({p} : {lean_ty(t)})" for p, t in sig.params)
                 head = f"/-- `{self.src}` line {fdef.lineno}: `{name}` -/\ndef {sig.lean_name} {binders} : M ({lean_ty(ret)}) := do"
                 defs.append(head + "\n" + "\n".join(lines))
             except ShapeError as e:
@@ -743,7 +795,8 @@ EXTERNAL_CONSTS = {
     "DECIMAL_0": ("(0 : Rat)", "dec"),
 }
 
-I, D, B, S = "int", "dec", "bool", "str"
+I, D, B, S, T, F = "int", "dec", "bool", "str", "tok", "frame"
+DD = ("dict", "dec")
 
 UNITS = [
     Unit("LiquitidyMath", "demeter/uniswap/liquitidy_math.py", [
@@ -758,6 +811,19 @@ UNITS = [
         ("get_amounts", {"sqrt_price_x96": I, "tickA": I, "tickB": I, "liquidity": I, "decimal0": I, "decimal1": I}),
     ]),
 ]
+
+
+UNITS.append(Unit("AaveCore", "demeter/aave/core.py", [
+    ("safe_div", {"a": D, "b": D}),
+    ("rate_to_apy", {"rate": D}),
+    ("get_amount", {"base_amount": D, "liquidity_index": D}),
+    ("get_base_amount", {"amount": D, "liquidity_index": D}),
+    ("health_factor", {"collaterals": DD, "borrows": DD, "risk_parameters": F}),
+    ("max_ltv", {"collaterals": DD, "risk_parameters": F}),
+    ("total_liquidation_threshold", {"collaterals": DD, "risk_parameters": F}),
+    ("get_min_withdraw_kept_amount", {"token": T, "collaterals": DD, "borrows": DD, "risk_parameters": F, "price": D}),
+], cls="AaveV3CoreLib", consts=("SECONDS_IN_A_YEAR", "HEALTH_FACTOR_LIQUIDATION_THRESHOLD", "DEFAULT_LIQUIDATION_CLOSE_FACTOR",
+                                 "MAX_LIQUIDATION_CLOSE_FACTOR", "CLOSE_FACTOR_HF_THRESHOLD"), prefix="aave_"))
 
 
 def run(write=True, only=None):
